@@ -695,6 +695,22 @@ func (x *e1) checkEnd(connAlive bool, faultFree bool) {
 				}
 			}
 		}
+		// C10: a handler error is actually sent (never swallowed or replaced by a
+		// plain end-of-stream) when the stream was still open at that time
+		if spec.HRet == RetErr && !spec.Unknown && r.HReturned && !r.Cancelled && faultFree && x.pooled == nil &&
+			!(r.C.ClosedByMe && r.C.CloseStep <= r.HRetStep) && (!x.serveDone || x.serveStep > r.HRetStep) &&
+			!(spec.Shape == ShUnary && r.InvokeDone && r.ClientDoneStep <= r.HRetStep) {
+			want := buildErr(spec.HErr).Error()
+			found := false
+			for _, p := range x.monS.Packets {
+				if p.Kind == kError && len(p.Data) >= 8 && string(p.Data[8:]) == want {
+					found = true
+				}
+			}
+			if !found && !x.clientEndedBefore(r) {
+				x.viol("handler-error", "handler returned an error but no error packet with its text was sent: error-class="+errFamily(spec.HErr), fmt.Sprintf("rpc%d want %q", k, trunc(want, 60)))
+			}
+		}
 		if spec.Unknown && !r.Cancelled && faultFree && connAlive {
 			var got error
 			if spec.Shape == ShUnary {
@@ -752,8 +768,8 @@ func (x *e1) checkComplete(r *rpcRec) {
 		got := 0
 		var last error
 		for _, rr := range rcv.Recvs {
-			if rr.Err == nil {
-				got++
+			if rr.Err == nil || errors.Is(rr.Err, errUndecodable) {
+				got++ // an undecodable message did arrive
 			} else {
 				last = rr.Err
 			}
@@ -1019,4 +1035,17 @@ func (x *e1) checkServerDropped() {
 		}
 	}
 	x.viol("server-dropped", "server ended the connection although the client only made calls and soft cancels: serve-error-class="+cls, errStr(x.serveErr))
+}
+
+func errFamily(e ErrSpec) string {
+	if e.Style == 3 {
+		return "wraps-io.EOF"
+	}
+	return "plain"
+}
+
+// clientEndedBefore: the client's side of rpc r had ended (script finished, closed)
+// before the handler returned, so the server's SendError may legitimately be a no-op.
+func (x *e1) clientEndedBefore(r *rpcRec) bool {
+	return r.ClientDone && r.ClientDoneStep <= r.HRetStep
 }
